@@ -22,6 +22,12 @@ EXPS = list(range(-7, 7))
 BAD_TERM = ['i:0', 'i:-1', 'D:0.0000001', 'D:0.00000099', 's:abc', 'f:inf',
             'f:nan', 'N:None', 'D:-0.5', 'F:-1/3', 'f:-0.0', 'D:0', 'D:0.00',
             'F:0/1', 's:0']
+# amounts without finite decimal expansion a hair (1/(3e30)) beside a tie of
+# the 7th significant digit, and beside the smallest admissible amount
+_EPS = F(1, 3 * 10 ** 30)
+NEAR = [F(1234575, 10 ** 7) - _EPS, F(1234585, 10 ** 7) + _EPS,
+        (F(1234575, 10 ** 7) - _EPS) / 1000, F(8765435, 10 ** 3) - _EPS,
+        F(1, 10 ** 6) - _EPS, F(1, 10 ** 6) + _EPS]
 HALF = F(1, 2 * 10 ** 6)
 MIN_TERM = F(1, 10 ** 6)
 
@@ -326,6 +332,8 @@ def part_construct(p, kinds_m, kinds_t, exps):
                     for e in exps:
                         for kt in kinds_t:
                             terms.append([kt, str(mant * F(10) ** e)])
+                terms += [[kt, str(v)] for v in NEAR for kt in ('F', 's')
+                          if kt in kinds_t or kt == 'F']
                 terms += BAD_TERM
                 for ti, term in enumerate(terms):
                     spells = ['oo']
